@@ -317,7 +317,7 @@ func checkSeries(s *verifh.Sink) {
 			vals = append(vals, ev{kind: "int", i: int64(zz>>1) ^ -int64(zz&1)})
 		}
 	}
-	vals = append(vals, ev{kind: "int", i: int64(uint64(0x7c5c7c5c7c5c7c5c)>>1)}, ev{kind: "int", i: 190}, ev{kind: "int", i: 318})
+	vals = append(vals, ev{kind: "int", i: int64(uint64(0x7c5c7c5c7c5c7c5c) >> 1)}, ev{kind: "int", i: 190}, ev{kind: "int", i: 318})
 	vals = append(vals, ev{kind: "ts", i: 0x7c * 1e9}, ev{kind: "ts", i: 1700000000123456789}, ev{kind: "ts", i: 0x5c7c})
 	subjects := []string{"", "a", "|", "\\", "a|", "\\|", "a\\", "m1", "\x01", "\x01|"}
 
